@@ -546,6 +546,33 @@ class C18(Prop):
                 ",".join(hx(r) for r in drow), ",".join(hx(b"n%d" % i) for i in range(nseq)), ",".join(str(i + 1) for i in range(nseq)), ",".join(str(10 + i) for i in range(nseq))))
             ops.append("peek")
             out.append({"name": "msa-%dx%d" % (nseq, alen), "ops": ops, "sticky": 1})
+        # larger shapes than the random part reaches: counters that are 8 bit or allocations by 64/128/256 would show here
+        for (nseq, alen) in ((70, 300), (129, 3), (3, 1025)):
+            ops = ["seed s=%d" % rng.randrange(1, 1 << 32)]
+            trow = [bytes(rng.choice(b"ACGU-.acgu") for _ in range(alen)) for _ in range(nseq)]
+            drow = [bytes(rng.choice([0, 1, 2, 3, 4, 4, 15, 16, 17]) for _ in range(alen)) for _ in range(nseq)]
+            ops.append("msashuffle dig=0 abc=dna rows=%s ip=1" % ",".join(hx(r) for r in trow))
+            ops.append("msashuffle dig=1 abc=dna rows=%s ip=0" % ",".join(hx(r) for r in drow))
+            ops.append("vshuffle abc=dna rows=%s ip=0" % ",".join(hx(r) for r in drow))
+            ops.append("vshuffle abc=dna rows=%s ip=1" % ",".join(hx(r) for r in drow))
+            ops.append("bootstrap dig=0 abc=dna rows=%s ip=0" % ",".join(hx(r) for r in trow))
+            ops.append("bootstrap dig=1 abc=dna rows=%s ip=0" % ",".join(hx(r) for r in drow))
+            ops.append("permute dig=0 abc=dna rows=%s names=%s wgt=%s sqlen=%s acc=none desc=none ss=none sa=none pp=none gs=none gr=none" % (
+                ",".join(hx(r) for r in trow), ",".join(hx(b"n%d" % i) for i in range(nseq)), ",".join(str(i + 1) for i in range(nseq)), ",".join(str(10 + i) for i in range(nseq))))
+            ops.append("peek")
+            out.append({"name": "msa-large-%dx%d" % (nseq, alen), "ops": ops, "sticky": 1})
+        for L in (257, 1500):
+            x = bytes(rng.choice(b"ACGU--..") for _ in range(L)); y = bytes(rng.choice(b"ACGU--__") for _ in range(L))
+            dx = bytes(rng.choice([0, 1, 2, 3, 4, 4]) for _ in range(L)); dy = bytes(rng.choice([0, 1, 2, 3, 4, 16]) for _ in range(L))
+            v = ",".join(str(rng.randrange(-99, 100)) for _ in range(L))
+            ops = ["seed s=%d" % rng.randrange(1, 1 << 32)] + ["cqrna abc=dna x=%s y=%s ip=%d" % (hx(x), hx(y), m) for m in (0, 1, 2, 3)] + \
+                  ["xqrna abc=dna x=%s y=%s ip=%d" % (hx(dx), hx(dy), m) for m in (0, 1, 2, 3)] + \
+                  ["%s v=%s ip=%d" % (o, v, L & 1) for o in ("ishuffle", "dshuffle", "fshuffle", "lshuffle", "ireverse", "dreverse", "freverse", "lreverse")] + \
+                  ["iid abc=%s p=%s L=%d" % (hx(b"ACGT"), ",".join(dbits(q) for q in (0.25, 0.0, 0.5, 0.25)), 3 * L), "xiid p=none K=20 L=%d" % (3 * L),
+                   "xfiid p=%s L=%d" % (",".join(fbits(q) for q in (0.5, 0.25, 0.25)), 3 * L), "sample flag=1 L=%d pre=0" % (3 * L),
+                   "sampledirty abc=amino p=none ret=1 L=%d" % (2 * L), "seed64 s=%d" % rng.randrange(1, 1 << 64)] + \
+                  ["%sshuffle64 v=%s" % (t, v) for t in "dfil"] + ["peek64", "peek"]
+            out.append({"name": "large-L%d" % L, "ops": ops, "sticky": 1})
         # the upper limit of the quantifier
         for L in ((5000,) if ctx.tier == "quick" else (4999, 5000)):
             K = rng.choice([2, 4, 20, 26])
